@@ -217,3 +217,38 @@ MILESTONES_C = REG.add(Contract(
     loops={0: Loop({"checked so far": "milestones_ok(self, current_node, current_position, k)"})},    # self / arguments are not assigned in the loop
     spec_fns={"milestones_ok": milestones_ok, "refs_positioned": refs_positioned, "WALK_DR_eq": lambda a, b: WALK_DR.eq(a, b)},
     props=("C07",)))
+
+
+# ---- composition with the placement loop (C05 / C17 units) -------------------------------------------------------------------
+def lemma_accepted_point_meets_restraints(ctx):
+    """glue between two sets of proved contracts.  RandomWalk.update_positions is proved (contracts/random_walk.py) to accept a point
+    only if the RESULT of fulfill_geometrical_constraints / is_restricted for that point was True -- there the results are named by
+    the uninterpreted predicates FULFILL / RESTRICT.  The contracts proved here say what a True result means.  Instantiating the second
+    (universally quantified over all inputs, with the result named) at the accepted point gives the statement of C07 for every
+    generated residue: the geometric restraints hold at the accepted point and the step has the demanded direction."""
+    from contracts import random_walk as RW
+    from contracts.rw_types import NODEATTR, V3 as V3_
+    T = NODEATTR
+
+    def quantified(name, free, body):
+        vs = []
+        for v in free:
+            vs += [x for x in v if z3.is_const(x)]
+        return z3.ForAll(vs, body)
+    # universally quantified form of the C07 contracts (point p, attributes a), result named by the predicate of contracts/random_walk.py
+    p, q, a = V3_.fresh("p"), V3_.fresh("q"), T.fresh("a")
+    pf = [ops.real(x) for x in p.data]
+    qf = [ops.real(x) for x in q.data]
+    af = T.flat(a)
+    known = FULFILL_C.spec_fns["known_kinds"](a)
+    h_geo = z3.ForAll([x for x in p.data] + af, z3.Implies(z3.And(known, RW.FULFILL(*pf, *af)), all_restraints_ok(p, a)))
+    h_dir = z3.ForAll([x for x in p.data] + [x for x in q.data] + af,
+                      z3.Implies(z3.And(direction_pre(p, q, a), RW.RESTRICT(*pf, *qf, *af)), direction_ok(p, q, a)))
+    # the accepted point of update_positions (clauses of accepted_point_ok)
+    newp, unw, last, cur = V3_.fresh("new_point"), V3_.fresh("unwrapped_point"), V3_.fresh("last_point"), T.fresh("cur_attrs")
+    cf = T.flat(cur)
+    facts = [RW.FULFILL(*[ops.real(x) for x in newp.data], *cf), RW.RESTRICT(*[ops.real(x) for x in unw.data], *[ops.real(x) for x in last.data], *cf)]
+    return [("an accepted point satisfies every geometric restraint declared for its residue",
+             [h_geo, facts[0], FULFILL_C.spec_fns["known_kinds"](cur)], all_restraints_ok(newp, cur)),
+            ("an accepted step has the direction its residue's restriction demands",
+             [h_dir, facts[1], direction_pre(unw, last, cur)], direction_ok(unw, last, cur))]
